@@ -137,3 +137,32 @@ def check_c14(tier, seed):
         return nscheck.finish(run, "C14")
     finally:
         run.close()
+
+
+def check_c03(tier, seed):
+    """Permissions (C03): configured (owner, group, mode) trees x acting users x path-taking calls, each decided by the
+    kernel under the same fsuid/fsgid (which keeps FsCore's DAC rules honest) and by MemFS through a view with SetUser."""
+    run = nscheck.NsRun("C03", tier, seed)
+    try:
+        run.build()
+        L = 1 if tier == "quick" else 2
+        for prof in ("perm1", "perm2"):
+            edges = run.generate(prof, L, "%s-%d" % (prof, L))
+            sample_edges(run, edges)
+            for t in ("osfs", "memfs"):
+                run.replay(edges, t)
+        for k, (n, ln) in enumerate([(48, 80)] if tier == "quick" else [(300, 120), (300, 120), (300, 120)]):
+            run.random(n, ln, sym=False, own=False, names="a,b", depth=2, perm=True, targets=("memfs",), seed=seed * 13 + k)
+        run.cov["universe"] = "nodes /w/d, /w/e (directories), /w/d/f, /w/e/b (files) with every owner class relative to the acting user " \
+                              "(owner / group / other) x every rwx triple for that class (complement in the other classes), sticky and " \
+                              "set-gid directories, set-uid/set-gid files, umasks {022, 0, 077, 0777}, /w with and without search " \
+                              "permission, acting users u1 and root; 60 single-directory call shapes and 7 two-directory ones " \
+                              "(rename/link across d and e); random 80-120 step histories with SetUser among root/u1/u2, SetUMask, " \
+                              "chmod with arbitrary 12-bit modes and chown by anybody"
+        run.cov["exhaustive"] = True
+        return nscheck.finish(run, "C03", extra_assumptions=[
+            "the kernel decides under setfsuid/setfsgid/setgroups([]) on the calling thread; fs.protected_hardlinks=1 (kernel default) is part of the reference",
+            "MemIdm users have one group: supplementary groups are not exercised",
+            "the acting MemFS view is Sub('/') with SetUser; the projection reads through the administrator's file system"])
+    finally:
+        run.close()
